@@ -358,7 +358,7 @@ func libGoroutines() []string {
 func faultCase(r *rand.Rand, o *hout.Out, idx int) {
 	buf := []int{0, 1, 10}[r.Intn(3)]
 	role := r.Intn(2) // 0 initiator, 1 acceptor
-	causes := []string{"peer-close", "handler-stop", "local-close", "write-timeout"}
+	causes := []string{"peer-close", "handler-stop", "local-close", "write-timeout", "bad-message"}
 	cause := causes[r.Intn(len(causes))]
 	flood := r.Intn(3) > 0
 	sendOut := r.Intn(2) == 0
@@ -473,6 +473,10 @@ func faultCase(r *rand.Rand, o *hout.Out, idx int) {
 		}
 	case "write-timeout":
 		// nothing to do: the peer does not read, the write deadline expires
+	case "bad-message":
+		// a well-framed message without a MsgType field: DefaultHandler.serve fails, Run returns its error
+		_ = b.SetWriteDeadline(time.Now().Add(300 * time.Millisecond))
+		_, _ = b.Write(frame("34=3\x0158=no-type\x01"))
 	}
 	// settle
 	settle := time.Now()
